@@ -4,8 +4,10 @@ import os, sys, json, time, hashlib, traceback, multiprocessing, warnings
 
 from . import VERIF_DIR
 
-EVIDENCE_DIR = os.path.join(VERIF_DIR, "evidence")
-OUT_DIR = os.path.join(VERIF_DIR, "out", "replays")
+# VCHECK_EVIDENCE_DIR / VCHECK_OUT_DIR: only for sensitivity runs against scratch
+# copies (tools/mutants.py); registered commands never set them
+EVIDENCE_DIR = os.environ.get("VCHECK_EVIDENCE_DIR") or os.path.join(VERIF_DIR, "evidence")
+OUT_DIR = os.environ.get("VCHECK_OUT_DIR") or os.path.join(VERIF_DIR, "out", "replays")
 REPLAY_DIR = os.path.join(VERIF_DIR, "replays")
 KNOWN_FILE = os.path.join(VERIF_DIR, "known_findings.json")
 
